@@ -26,6 +26,7 @@ func contractTags(fc *FuncContract) []string {
 	add(fc.Safety)
 	add(fc.Term)
 	add(fc.Owns)
+	add(fc.ChanTags)
 	for _, cs := range fc.Calls {
 		for _, a := range cs.Asserts {
 			add(a.Tags)
